@@ -1,2 +1,2 @@
 (* C17 — lemmas, split by model part. *)
-Require Export QV.C17.ProofsAttr QV.C17.ProofsLayout QV.C17.ProofsStore QV.C17.ProofsRec.
+Require Export QV.C17.ProofsAttr QV.C17.ProofsNames QV.C17.ProofsLayout QV.C17.ProofsStore QV.C17.ProofsRec.
